@@ -3,8 +3,8 @@ import json
 
 PLAN = {
     'C01': ['harness.fe_typeargs', 'harness.fe_defaults', 'harness.fe_examples', 'harness.fe_docrefs', 'harness.fe_attrs', 'harness.fe_names', 'harness.fe_structure', 'harness.fe_rules', 'harness.c11_layout'],
-    'C02': ['harness.fe_typeargs', 'harness.fe_defaults', 'harness.fe_examples', 'harness.fe_attrs', 'harness.fe_structure', 'harness.c02_units'],
-    'C03': ['harness.fe_typeargs', 'harness.fe_defaults', 'harness.fe_examples', 'harness.fe_docrefs', 'harness.fe_attrs', 'harness.fe_names', 'harness.fe_structure', 'harness.fe_rules', 'harness.c03_units', 'harness.c11_layout'],
+    'C02': ['harness.fe_typeargs', 'harness.fe_defaults', 'harness.fe_examples', 'harness.fe_attrs', 'harness.fe_structure', 'harness.fe_annotations', 'harness.fe_rules', 'harness.c02_units'],
+    'C03': ['harness.fe_typeargs', 'harness.fe_defaults', 'harness.fe_examples', 'harness.fe_docrefs', 'harness.fe_attrs', 'harness.fe_names', 'harness.fe_structure', 'harness.fe_rules', 'harness.c03_units', 'harness.c03_text', 'harness.c11_layout'],
     'C10': ['harness.fe_defaults', 'harness.fe_examples', 'harness.c10_emit'],
     'C04': ['harness.c04_roundtrip'],
     'C05': ['harness.c04_roundtrip'],
@@ -18,14 +18,18 @@ PLAN = {
     'C19': ['harness.c19_filter'],
 }
 
+# properties for which a catalogue (of valid specs) that no longer compiles / imports is itself the violation
+FIXTURE_FAILURE_IS_VIOLATION = ('C01', 'C03', 'C14')
+
 NEEDS_FIXTURES = {
-    'harness.c04_roundtrip': True,
-    'harness.c06_decoder': True,
-    'harness.c07_evolution': True,
-    'harness.c08_generated': True,
-    'harness.c13_privacy': True,
-    'harness.c14_client': True,
-    'harness.fe_examples': True,
+    'harness.c04_roundtrip': ('shapes',),
+    'harness.c06_decoder': ('shapes',),
+    'harness.c07_evolution': ('evolution',),
+    'harness.c08_generated': ('shapes',),
+    'harness.c13_privacy': ('annotated',),
+    'harness.c14_client': ('shapes', 'client2'),
+    'harness.fe_examples': ('holes',),
+    'harness.c10_emit': ('shapes', 'client2', 'holes'),
 }
 
 
